@@ -122,4 +122,20 @@ let suite_rd (t : toks) : string =
     Buffer.add_string b (Printf.sprintf " REM %d" (List.length s.rbuf));
     Buffer.contents b
 
-let suites = [ ("rt", suite_rt); ("rd", suite_rd) ]
+(* ard <pk> <ttype code> <hex> <schedule>  (the schedule is irrelevant to the model: a stream is
+   the byte string it delivers) *)
+let suite_ard (t : toks) : string =
+  let p = pk_of_string (next t) in
+  let ty = ttype_of_code (next_int t) in
+  let input = bytes_of_hex (next t) in
+  let _sched = next t in
+  let fuel = nat_of_int (List.length input + 2) in
+  match aread_val p fuel ty { rbuf = input; rc = r0 } with
+  | (Err _ | Panic _) as r -> show_res_err r
+  | Ok (v, s) ->
+    let b = Buffer.create 64 in
+    Buffer.add_string b "ok "; show_val b v;
+    Buffer.add_string b (Printf.sprintf " REM %d" (List.length s.rbuf));
+    Buffer.contents b
+
+let suites = [ ("rt", suite_rt); ("rd", suite_rd); ("ard", suite_ard) ]
